@@ -37,7 +37,7 @@ MANIFEST = {
     "technique": "Lean 4 proof (executable model, Mathlib group law through the C02 refinement, decide over generated tables) + "
                  "differential correspondence model vs implementation + independent reference oracle",
 }
-RULE = ("ops bip32_address/c09pure <op> (same op under PYCOIN_NATIVE=none)/bip32_ckdraw/bip32_ckdpubraw/bip32_spec/bip32_master/bip32_node/bip32_pubcopy/bip32_ckd/bip32_path/bip32_nodepath/bip32_ser/bip32_deser/hwif/hparse/subpaths/"
+RULE = ("ops bip32_fam (histories over a family of objects: public copies, shared children)/bip32_texts (hwif, as_text, repr, wif)/bip32_address/c09pure <op> (same op under PYCOIN_NATIVE=none)/bip32_ckdraw/bip32_ckdpubraw/bip32_spec/bip32_master/bip32_node/bip32_pubcopy/bip32_ckd/bip32_path/bip32_nodepath/bip32_ser/bip32_deser/hwif/hparse/subpaths/"
         "bip32_hist/bip32_pathhist/bip32_subkeys/electrum_new/electrum_subkey; boundary corpus (BIP32 vectors 1-3, indices 0, 1, "
         "2^24-1, 2^24, 2^31-1, 2^31 hardened and not, parents whose exponent has leading zero bytes, depth 255/256, every network "
         "x prefix kind, wrong-length / wrong-prefix / corrupted extended keys, path spellings, ranges) + seeded random seeds, paths, "
@@ -135,6 +135,19 @@ def item(f):
         return show_node(f())
     except Exception as e:  # noqa: BLE001
         return "!" + type(e).__name__
+
+
+def _text(f, raw=False):
+    try:
+        r = f()
+        return r if raw else s2h(r)
+    except Exception as e:  # noqa: BLE001
+        return "!" + type(e).__name__
+
+
+def fam_item(r) -> str:
+    """an object of a family history: its fields and what its text accessors (as_text, repr) say"""
+    return "%s|%s|%s" % (show_node(r), _text(lambda: r.as_text(as_private=r.secret_exponent() is not None)), _text(lambda: repr(r)))
 
 
 def wallet_from(spec: str):
@@ -287,7 +300,39 @@ def impl(op: str) -> str:
             return "none" if r is None else "ok " + s2h(r)
         if k == "hparse":
             r = getattr(net(a[1]).parse, "bip%s" % a[2])(h2s(a[3]))
-            return "none" if r is None else "ok " + show_node(r)
+            return "none" if r is None else "ok %s %s" % (show_node(r), _text(lambda: r.as_text(as_private=r.secret_exponent() is not None)))
+        if k == "bip32_fam":
+            objs = [mk_node(a[2], a[1])]
+            answers = []
+            for st in ([] if a[3] == "~" else a[3].split(",")):
+                parts = st[1:].split("/")
+                o = objs[int(parts[0])] if int(parts[0]) < len(objs) else None
+                if o is None:
+                    objs.append(None)
+                    answers.append("!NoObject")
+                    continue
+                try:
+                    if st[0] == "c":
+                        r = o.public_copy()
+                    elif st[0] == "s":
+                        r = o.subkey(i=int(parts[1]), is_hardened=parts[2] == "1", as_private=opt_bool(parts[3]))
+                    else:
+                        r = o.subkey_for_path(h2s(parts[1]))
+                    objs.append(r)
+                    answers.append(fam_item(r))
+                except Exception as e:  # noqa: BLE001
+                    objs.append(None)
+                    answers.append("!" + type(e).__name__)
+            return "ok " + ";".join(answers)
+        if k == "bip32_texts":
+            n = mk_node(a[2], a[1])
+
+            def wif():
+                w = n.wif()
+                return "none" if w is None else s2h(w)
+            return "ok " + "|".join([_text(lambda: n.hwif(as_private=True)), _text(lambda: n.hwif(as_private=False)),
+                                     _text(lambda: n.as_text(as_private=True)), _text(lambda: n.as_text(as_private=False)),
+                                     _text(lambda: repr(n)), _text(wif, raw=True)])
         if k == "subpaths":
             return "ok " + show_list(list(subpaths_for_path_range(h2s(a[1]))), s2h)
         if k == "bip32_hist":
@@ -679,6 +724,10 @@ def oracle(op: str, out: str):
             want = ec_add(ec_mul(int.from_bytes(i64[:32], "big") % n), (x, y))
             if want is not None and out != "ok %d,%d %s" % (want[0], want[1], hx(i64[32:])):
                 return "public child is not (I_L mod n)*G + K with chain code I_R"
+    if k == "bip32_fam" and out.startswith("ok "):
+        return _fam_oracle(a, out)
+    if k == "bip32_texts" and out.startswith("ok "):
+        return _texts_oracle(a, out)
     if k == "bip32_spec" and out.startswith("ok "):
         name, kind, seedh, pub_first = a[1], int(a[2]), a[3], a[5] == "1"
         idxs = [] if a[4] == "~" else [int(x) for x in a[4].split(",")]
@@ -731,9 +780,12 @@ def oracle(op: str, out: str):
         back = impl("hparse %s %d %s" % (name, kind, out[3:]))
         if not back.startswith("ok "):
             return "text form does not parse back on its own network (%s)" % back
-        if _check_node(back[3:], want, "x") or int(back[3:].split(":")[0]) != kind:
+        back_node, back_text = back[3:].split(" ")
+        if _check_node(back_node, want, "x") or int(back_node.split(":")[0]) != kind:
             return "text round trip does not preserve every field"
-        tok = back[3:].split(":")
+        if back_text != out[3:]:
+            return "as_text() of the parsed node is not the text it was parsed from"
+        tok = back_node.split(":")
         again = impl("hwif %s %s %s" % (name, ":".join(tok[:5]) + (":s" + tok[5] if tok[5] != "-" else ":p" + tok[6]), a[3]))
         if again != out:
             return "parse followed by hwif does not reproduce the text"
@@ -771,7 +823,7 @@ def oracle(op: str, out: str):
             return "parser raised %s instead of returning None" % out[4:]
         if out.startswith("ok "):
             name, kind = a[1], int(a[2])
-            tok = out[3:].split(":")
+            tok = out[3:].split(" ")[0].split(":")
             priv = tok[5] != "-"
             data = _b58check_payload(h2s(a[3]))
             marker_private = data is not None and data[:4] == getattr(net(name).parse, "_bip%d_prv_prefix" % kind)
@@ -847,6 +899,141 @@ def oracle(op: str, out: str):
     return None
 
 
+def _ref_text(name, kind, n, private):
+    pfx = getattr(net(name).parse, "_bip%d_%s_prefix" % (kind, "prv" if private else "pub"))
+    if pfx is None or n["depth"] > 255:
+        return None
+    return ref_b58check(pfx + ref_serialize(n, private))
+
+
+def _fam_oracle(a, out):
+    """each answer of a history over the family equals a fresh derivation from the root (BIP32 reference), a hardened child of a
+    public-only object is refused, and no object whose lineage passed through public_copy()/a public object exposes a secret"""
+    name, kind = a[1], int(a[2].split(":")[0])
+    root = impl("bip32_node " + a[2])
+    if not root.startswith("ok "):
+        return None
+    exp = [ref_of_token(root[3:])]
+    steps = [] if a[3] == "~" else a[3].split(",")
+    answers = out[3:].split(";") if steps else []
+    for st, ans in zip(steps, answers):
+        parts = st[1:].split("/")
+        r = int(parts[0])
+        src = exp[r] if r < len(exp) else None
+        if src is None:
+            exp.append(None)
+            continue
+        want = None
+        if st[0] == "c":
+            want = ref_public(src)
+        elif st[0] == "s":
+            i, hard, priv = int(parts[1]), parts[2] == "1", opt_bool(parts[3])
+            if not 0 <= i < 2 ** 31:
+                want = "!ValueError"
+            else:
+                w = ref_ckd(src, i + (2 ** 31 if hard else 0))
+                if w == "refused":
+                    want = "!PublicPrivateMismatchError"
+                elif w is not None:
+                    if priv is None:
+                        priv = src["k"] is not None
+                    want = w if priv else ref_public(w)
+        else:
+            w = ref_path(src, h2s(parts[1]))
+            if w == "refused":
+                want = "!PublicPrivateMismatchError"
+            elif w is not None:
+                want = w
+        if ans.startswith("!"):
+            if isinstance(want, dict):
+                return "step %s raised %s where a fresh derivation from the root succeeds" % (st, ans[1:])
+            if isinstance(want, str) and want != ans:
+                return "step %s raised %s, expected %s" % (st, ans[1:], want[1:])
+            exp.append(None)
+            continue
+        tok, text, rep = ans.split("|")
+        got = ref_of_token(tok)
+        if src["k"] is None and got["k"] is not None:
+            return "step %s: a public-only object yielded a node carrying a secret exponent" % st
+        if want == "!PublicPrivateMismatchError":
+            return "step %s: hardened derivation from a public-only object not refused" % st
+        if isinstance(want, str):
+            return "step %s succeeded, expected %s" % (st, want[1:])
+        if isinstance(want, dict):
+            why = _check_node(tok, want, "step %s" % st)
+            if why:
+                return why + " (fresh derivation from the root)"
+        if int(tok.split(":")[0]) != kind:
+            return "step %s: the class of the node changed" % st
+        if kind in kinds_of(name):
+            t = _ref_text(name, kind, got, got["k"] is not None)
+            if t is not None and text != s2h(t):
+                return "step %s: as_text() is not the BIP32 serialisation with this class's prefix" % st
+            tp = _ref_text(name, kind, got, False)
+            if tp is not None and rep != s2h(("private_for <%s>" if got["k"] is not None else "<%s>") % tp):
+                return "step %s: repr() does not embed the public text form of this class" % st
+        exp.append(got)
+    return None
+
+
+def _texts_oracle(a, out):
+    """every text accessor: text -> parse -> same class, same fields, same address kind"""
+    name, kind = a[1], int(a[2].split(":")[0])
+    if kind not in kinds_of(name):
+        return None
+    root = impl("bip32_node " + a[2])
+    if not root.startswith("ok "):
+        return None
+    n = ref_of_token(root[3:])
+    hw1, hw0, at1, at0, rep, wif = out[3:].split("|")
+    node = mk_node(a[2], name)
+    for label, text, private in (("hwif(as_private=True)", hw1, True), ("hwif(as_private=False)", hw0, False),
+                                 ("as_text(as_private=True)", at1, True), ("as_text(as_private=False)", at0, False), ("repr()", rep, False)):
+        if text.startswith("!"):
+            if private and n["k"] is None and text == "!PublicPrivateMismatchError":
+                continue
+            if n["depth"] > 255:
+                continue
+            return "%s raised %s" % (label, text[1:])
+        t = h2s(text)
+        if label == "repr()":
+            m = re.match(r"^(private_for )?<(.*)>$", t)
+            if not m or bool(m.group(1)) != (n["k"] is not None):
+                return "repr() does not have the form [private_for ]<text>"
+            t = m.group(2)
+        want = n if private else ref_public(n)
+        hits = []
+        for kk in kinds_of(name):
+            obj = getattr(net(name).parse, "bip%d" % kk)(t)
+            if obj is not None:
+                hits.append((kk, obj))
+        mine = [o for kk, o in hits if kk == kind]
+        if not mine:
+            return "%s does not parse back as a bip%d key of its own network (accepted as: %s)" % (label, kind, [kk for kk, _ in hits] or "nothing")
+        obj = mine[0]
+        if kind_of(obj) != kind or _check_node(show_node(obj), want, "x"):
+            return "%s -> parse does not give the same class and fields" % label
+        try:
+            same_addr = obj.address() == node.address()
+        except Exception:  # noqa: BLE001
+            same_addr = True
+        if not same_addr:
+            return "%s -> parse changes the address kind" % label
+        others = [kk for kk, _ in hits if kk != kind]
+        pp = net(name).parse
+        for kk in others:
+            if not ({getattr(pp, "_bip%d_prv_prefix" % kk), getattr(pp, "_bip%d_pub_prefix" % kk)} &
+                    {getattr(pp, "_bip%d_prv_prefix" % kind), getattr(pp, "_bip%d_pub_prefix" % kind)}):
+                return "%s of a bip%d node also parses as bip%d" % (label, kind, kk)
+    if n["k"] is not None and not wif.startswith("!"):
+        wp = net(name).parse._wif_prefix
+        if wp is not None and wif != s2h(ref_b58check(wp + n["k"].to_bytes(32, "big") + b"\x01")):
+            return "wif() is not the compressed WIF of the node's secret exponent"
+    if n["k"] is None and wif != "none":
+        return "wif() of a public node is not None"
+    return None
+
+
 def trivial(op: str) -> bool:
     a = op.split(" ")
     if a[0] == "c09pure":
@@ -870,7 +1057,7 @@ def neighbours(op, rng):
         for name in ("btc", "xtn", "ltc"):
             for kind in kinds_of(name):
                 yield "hparse %s %d %s" % (name, kind, a[3])
-    elif a[0] in ("bip32_hist", "bip32_pathhist", "bip32_subkeys", "bip32_nodepath", "bip32_ser", "hwif"):
+    elif a[0] in ("bip32_fam", "bip32_texts", "bip32_hist", "bip32_pathhist", "bip32_subkeys", "bip32_nodepath", "bip32_ser", "hwif"):
         yield op
 
 
@@ -947,7 +1134,7 @@ def gen(ctx, emit):
         emit("bip32_ckd %s 5 1 %s" % (base, p))
         emit("bip32_ckd %s 5 0 %s" % (base_pub, p))
     # --- bip32.py called directly with a generator reporting an order near 2^255 / 2^254: the retry loop runs for real
-    for _ in range(ctx.n(60, 2000)):
+    for _ in range(ctx.n(40, 2000)):
         order = rng.choice([N, 2 ** 255, 2 ** 255 + 12345, 2 ** 254 + 1, N - 1, 3 * 2 ** 254])
         se = rng.randrange(1, order)
         pub = ec_mul(se)
@@ -989,13 +1176,15 @@ def gen(ctx, emit):
     mods = [m for m in all_modules() if supported(m)]
     ctx.note("networks skipped (Groestlcoin-family hash module absent): " + ",".join(m for m in all_modules() if not supported(m)))
     texts = []
+    t_pub = {kind: pub_tok_of(rand_priv_tok(kind=kind)) for kind in (32, 49, 84)}
     for m in mods:
         for kind in (32, 49, 84):
             t = rand_priv_tok(kind=kind)
             if kind in kinds_of(m):
                 for p in "10":
-                    emit("hwif %s %s %s" % (m, t, p))
-                    r = impl("hwif %s %s %s" % (m, t, p))
+                    tt = t if p == "1" else t_pub[kind]      # the public form from a public-only node: no multiplication in the model
+                    emit("hwif %s %s %s" % (m, tt, p))
+                    r = impl("hwif %s %s %s" % (m, tt, p))
                     if r.startswith("ok "):
                         texts.append((m, kind, r[3:]))
             elif m in ("bch", "doge", "zec", "dash"):
@@ -1064,16 +1253,16 @@ def gen(ctx, emit):
             i = rng.choice(BOUNDARY_I + [rng.randrange(2 ** 31), rng.randrange(100)])
             parts.append("%d%s" % (i, rng.choice([spelling, ""]) if hardened_ok else ""))
         return "/".join(parts)
-    for _ in range(ctx.n(14, 400)):
+    for _ in range(ctx.n(10, 400)):
         seed = rb(rng.choice([16, 32, 64, 1, 0, 100]))
         kind = rng.choice([32, 32, 49, 84])
         name = rng.choice(["btc", "xtn", "ltc"]) if kind != 32 else rng.choice(mods)
         emit("bip32_path %s %d %s %s 0" % (name, kind, hx(seed), s2h(rand_path(rng.randint(1, 3), spelling=rng.choice("Hp'")))))
-    for _ in range(ctx.n(8, 200)):
+    for _ in range(ctx.n(6, 200)):
         emit("bip32_path btc 32 %s %s 0" % (hx(rb(16)), s2h(rand_path(rng.randint(1, 3), hardened_ok=False))))
     for _ in range(ctx.n(3, 60)):
         emit("bip32_path btc 32 %s %s 1" % (hx(rb(16)), s2h(rand_path(rng.randint(1, 2)))))
-    for _ in range(ctx.n(30, 1500)):
+    for _ in range(ctx.n(20, 1500)):
         t = rand_priv_tok(kind=rng.choice([32, 49, 84]))
         if rng.random() < 0.35:
             t = pub_tok_of(t)
@@ -1087,7 +1276,7 @@ def gen(ctx, emit):
         emit("bip32_nodepath %s %s" % (node, s2h(p)))
         if len(p) < 8:
             emit("bip32_nodepath %s %s" % (node_pub, s2h(p)))
-    for _ in range(ctx.n(10, 300)):
+    for _ in range(ctx.n(6, 300)):
         emit("bip32_nodepath %s %s" % (rng.choice([node, node_pub, rand_priv_tok()]), s2h(rand_path(rng.randint(1, 3), spelling=rng.choice("Hp'")) + rng.choice(["", "", ".pub"]))))
 
     # --- cache: repeated and permuted call histories on one node object
@@ -1100,6 +1289,47 @@ def gen(ctx, emit):
     emit("bip32_hist %s %s" % (node, "0/1/1,0/0/1,0/1/0,0/0/0"))
     emit("bip32_hist %s %s" % (node_pub, "0/0/1,0/0/0,0/0/n,0/1/n,0/0/1"))
     emit("bip32_hist %s ~" % node)
+    # --- a FAMILY of objects derived from one root: public copies, shared children, each with its own cache
+    fam_fixed = [
+        # memoised hardened public child on the private node, then the public copy must still refuse it
+        "s0/7/1/0,c0,s2/7/1/n,p2/%s,s2/7/0/n,s0/7/1/0" % s2h("7H"),
+        # memoised private child on the private node, then the public copy asked for as_private=True
+        "s0/3/0/n,c0,s2/3/0/1,s2/3/0/n,s1/0/0/n,c1,s5/0/0/1,s5/0/1/n",
+        # children are shared objects: the child reached twice keeps its cache; public copies of children
+        "s0/1/0/n,s0/1/0/n,s1/2/1/n,s2/2/1/n,c1,s5/2/0/n,s5/2/1/n,p0/%s,p0/%s,p0/%s" % (s2h("1/2H"), s2h("1/2H.pub"), s2h("1.pub")),
+        "c0,c1,s2/0/0/1,s1/0/0/0,p1/%s,p2/%s,s9/0/0/n,c9" % (s2h("0/1"), s2h("0H")),
+        "p0/%s,c1,p2/%s,p0/%s,s0/5/1/0,c0,p6/%s" % (s2h("5H/1"), s2h("2"), s2h("5H.pub"), s2h("5'")),
+    ]
+    for kind in (32, 49, 84):
+        for st in fam_fixed[:2] if kind != 32 else fam_fixed:
+            emit("bip32_fam btc %s %s" % (rand_priv_tok(kind=kind), st))
+    emit("bip32_fam btc %s %s" % (pub_tok_of(rand_priv_tok()), fam_fixed[3]))
+    emit("bip32_fam btc %s ~" % rand_priv_tok())
+    for _ in range(ctx.n(6, 150)):
+        nobj, steps = 1, []
+        for _s in range(rng.randint(6, 12)):
+            r = rng.randrange(nobj) if rng.random() < 0.9 else nobj + 1
+            kind_s = rng.choice("csssspp")
+            if kind_s == "c":
+                steps.append("c%d" % r)
+            elif kind_s == "s":
+                steps.append("s%d/%d/%s/%s" % (r, rng.choice([0, 0, 1, 7, 2 ** 31 - 1, 2 ** 31]), rng.choice("01"), rng.choice("01n")))
+            else:
+                steps.append("p%d/%s" % (r, s2h(rng.choice(["0", "0H", "0.pub", "7H", "7", "0/1", "1H/0", ".pub", "0'/1.pub", "x"]))))
+            nobj += 1
+        emit("bip32_fam %s %s %s" % (rng.choice(["btc", "xtn", "ltc"]), rand_priv_tok(kind=rng.choice([32, 32, 49, 84])), ",".join(steps)))
+    # --- every text accessor of every node class (hwif, as_text, repr, wif): private, public, derived children
+    for name in ("btc", "xtn", "ltc"):
+        for kind in (32, 49, 84):
+            t = rand_priv_tok(kind=kind)
+            emit("bip32_texts %s %s" % (name, t))
+            emit("bip32_texts %s %s" % (name, pub_tok_of(t)))
+    for _ in range(ctx.n(6, 200)):
+        m = rng.choice(mods)
+        t = rand_priv_tok(kind=rng.choice(kinds_of(m)))
+        emit("bip32_texts %s %s" % (m, t if rng.random() < 0.6 else pub_tok_of(t)))
+    emit("bip32_texts btc %s" % rand_priv_tok(depth=256))
+    emit("bip32_texts doge %s" % rand_priv_tok(kind=49))
     path_pool = ["0", "0H", "0/1", "0/1.pub", "0.pub", "0H/1", "0H/1H", "0/1/2", "1", "1/0", "0p", "0'", "", ".pub", "0/x", "0//", "0/1H"]
     for _ in range(ctx.n(5, 100)):
         ps = [rng.choice(path_pool) for _ in range(rng.randint(4, 12))]
